@@ -358,6 +358,25 @@ fn exec(p: &Plan14, ctx: &mut Ctx) -> Result<(), String> {
                     Err(BuildErr::Refused(e)) | Err(BuildErr::Unknown(e)) => Err(e),
                 }
             };
+            // one variant failing an honest run that the other completes is a difference between them, not a harness matter
+            let failed = |r: &Result<<RunVis as Visitor>::Out, BuildErr>| -> Option<String> {
+                match r {
+                    Ok(Err(Ok(e))) => Some(e.clone()),
+                    Err(BuildErr::Refused(e)) => Some(e.clone()),
+                    _ => None,
+                }
+            };
+            match (failed(&s), failed(&m)) {
+                (None, Some(e)) if matches!(s, Ok(Ok(_))) => {
+                    ctx.fail(Violation::new("C14.prio3", format!("{}|mt_fails", inst.class), format!("{}-multithreaded fails an honest run that the serial type completes ({} simulated threads): {e}", inst.class, sched.threads)));
+                    return Ok(());
+                }
+                (Some(e), None) if matches!(m, Ok(Ok(_))) => {
+                    ctx.fail(Violation::new("C14.prio3", format!("{}|serial_fails", inst.class), format!("the serial {} fails an honest run that the multithreaded type completes: {e}", inst.class)));
+                    return Ok(());
+                }
+                _ => {}
+            }
             let (Some(s), Some(m)) = (unwrap(s, ctx)?, unwrap(m, ctx)?) else { return Ok(()) };
             if calls_made == 0 {
                 // legitimate (e.g. an implementation that stays serial below a size threshold); the
